@@ -64,6 +64,8 @@ def gen_spec(r, name, depth, required):
                 spec[p] = ["falsy"] if x < 0.2 else ["val", r.randrange(1 << 20)]
             else:
                 spec[p] = ["none"] if x < 0.35 else (["falsy"] if x < 0.55 else ["val", r.randrange(1 << 20)])
+    if name == "document" and r.random() < 0.97:
+        spec["file_length"] = list(spec["dl.file_length"])      # the two file_length attributes agree (see the recorded finding)
     return spec
 
 
